@@ -139,6 +139,9 @@ func vStepMaker(role int, st StateType) {
 	}
 	zzverif.Assert(w.openings <= 1 && (!broadcast0 || w.openings == 0), "C15.at_most_one_opening_broadcast")
 	zzverif.Assert(len(w.pays) == 0 && len(w.feePays) == 0, "C15.maker_never_pays")
+	// the refund / cooperative claim of the maker goes out once: a later failure (labelling, store) never
+	// leads to a second spend of the same output
+	zzverif.Assert(len(w.spends) <= 1, "C15.at_most_one_claim_broadcast_by_the_maker")
 	// ---- C22 ----
 	_, active := sc.env.msgMgr.senders[sc.id]
 	zzverif.Assert(!active || vRetransmitState(post), "C22.retransmitter_only_while_waiting_for_taker")
